@@ -22,20 +22,35 @@ def _arity_floors(emit, connect, disconnect, invoked, conn_emitting, disc_emitti
     d['set:connect_arities'] = 9
     d['set:disconnect_arities'] = 9
     d['set:arity_event'] = 98      # 9 arities x 11 event kinds, minus arguments_compared for arity 0
+    d['set:signal_event'] = 72     # 18 signal members (sigK and its same-signature twin sigKb, K = 0..8) x {emit, connect, disconnect, invoked}
     return d
+
+# twin signals: the SAME listener slot connected to two different signals of ONE emitter (the listener keeps one (signal, slot) list per emitter for all of
+# that emitter's signals) and to same-arity signals of different emitters; m = multiplier on the quick floors
+def _twin_floors(m):
+    return dict(same_slot_on_two_signals_of_one_emitter=150000 * m, same_slot_on_two_signals_of_one_emitter_signal_emitting=40000 * m,
+                same_slot_on_signals_of_two_emitters=100000 * m, invoked_slot_also_on_other_signal_of_emitter=150000 * m,
+                disconnect_slot_also_on_other_signal_of_emitter=60000 * m, disconnect_later_connected_of_two_signals_of_one_emitter=30000 * m,
+                disconnect_slot_also_on_other_signal_of_emitter_signal_emitting=25000 * m,
+                destroy_listener_same_slot_on_two_signals_of_one_emitter=25000 * m, destroy_emitter_same_slot_on_two_signals_of_one_emitter=20000 * m,
+                listener_walks_of_slot_on_two_signals_of_one_emitter=500000 * m, scripted_twin_signal_scenarios=27)
 
 SPEC = dict(
     level='exploration',
-    rule='(programs) case = one random program over 1..3 heap-allocated emitters x 2 signals x 1..4 heap-allocated listeners x 2 slots per signal (the emitter class has nine signals with 0..8 arguments, '
-         'the listener class two slots - one virtual - per arity; every emitter object, also a recreated one, draws which two distinct arities stand behind its two signals, so all nine '
-         'emit()/connect()/disconnect() overloads run under the same model; an emission passes distinguishable values of mixed types - Elem, long, int, Elem, u64, double, const Elem&, const long* - '
+    rule='(programs) case = one random program over 1..3 heap-allocated emitters x 1..3 signals x 1..4 heap-allocated listeners x 2 slots per signal (the emitter class has two signal members '
+         'per arity 0..8 - sigK and its same-signature twin sigKb, 18 signal keys - the listener class two slots - one virtual - per arity; every emitter object, also a recreated one, draws from '
+         'the seeded stream which signals stand behind its signal indexes: a fresh arity (from all nine or from a per-case palette of 2..3 arities) or the twin of an earlier index, so all nine '
+         'emit()/connect()/disconnect() overloads run under the same model AND the same listener slot gets connected to two different signals of one emitter and to same-arity signals of '
+         'different emitters; an emission passes distinguishable values of mixed types - Elem, long, int, Elem, u64, double, const Elem&, const long* - '
          'and every slot compares every argument): '
          '6..80 top-level actions (connect / disconnect / emit / destroy listener / destroy emitter / recreate, and actions focused on one connection: '
          'self-disconnect, disconnect-connect-... sequences, destroy own listener, destroy the emitting emitter, recursive emission, duplicate connect); every slot '
          'invocation draws nested actions from the same seeded stream (emission depth <= 4), swarm-weighted per case. distinct = hash of the executed action tree; '
          'non-trivial = at least 2 slot invocations and at least 1 action executed inside a slot. Compared: every slot entry against the next invocation predicted by '
          'a lockstep model of connection records (exact listener, slot, argument, order), the end of every emission against "nothing left to invoke", and after every '
-         'top-level action (no emission in progress) a walk of Emitter::signalData / Listener::slotData against the live connections of the model. '
+         'top-level action (no emission in progress) a walk of Emitter::signalData (per signal, as a sequence) / Listener::slotData (per emitter AND signal AND slot, as counts) against the live '
+         'connections of the model. Scripted scenarios (three historic ones and three twin-signal ones: slot connected to sigK then sigKb of one emitter, the later connection disconnected at top level / '
+         'from its own slot, then listener or emitter destroyed) run for every arity in every shard. '
          '(exhaustive-q/-t) case = one of ALL 2*8^M*10^N programs (quick M=2,N=3; thorough M=3,N=4) over E0, L0, L1, one signal (0 arguments), one slot each; '
          '(exhaustive-arities-q/-t) the same program space (quick M=2,N=3; thorough M=3,N=3) enumerated completely for EACH of the nine signal arities 0..8: prefix (connect L0, [L0 again,] L1), emit, '
          'M top-level actions from {emit, connect/disconnect/delete L0|L1, delete E0}, emit, emit, where the slot invocations consume in execution order a stream of N nested actions from '
@@ -45,7 +60,7 @@ SPEC = dict(
                  'disconnect() removes the oldest live record of that (listener, slot); a record connected during an emission of its signal is not invoked by any '
                  'emission of that signal that is nested in it, even if an older duplicate was disconnected meanwhile',
                  'disconnect() of a pair that is not connected is a no-op',
-                 'listener-side bookkeeping is compared as a multiset per emitter (its order is not observable through the API); an empty slotData entry for a destroyed emitter describes no connection',
+                 'listener-side bookkeeping is compared as a multiset of (signal, slot) pairs per emitter (its order is not observable through the API); an empty slotData entry for a destroyed emitter describes no connection',
                  'the emitter class of the harness is not polymorphic: Emitter::emit calls slots through a pointer cast to the emitter class (type erasure), which -fsanitize=vptr would flag for any polymorphic emitter'],
     technique='lockstep reference model of connection records + invocation log + access-override structure walk at quiescent points, under ASan/UBSan',
     exhaustive={Q: False, T: False},   # the exhaustive-* jobs enumerate their small-scope program space completely; the check as a whole is exploration
@@ -62,12 +77,12 @@ SPEC = dict(
                     exhaustive_programs=1280000, exhaustive_programs_all_arities=1152000, op_emit_recursive_same_signal=200000, op_destroy_emitter_while_emitting=100000, op_destroy_emitter_with_nested_emissions=20000,
                     op_destroy_listener_with_pending_slots=60000, op_disconnect_behind_dead_record_of_same_slot=100000, op_destroy_listener_behind_other_record_of_same_slot=60000,
                     dcd_sequences_signal_emitting=50000, pending_slot_dropped_before_its_turn=150000, passed_over_connected_during_emission=400000, max_emission_depth=4,
-                    **{'set:action_at_depth': 80},
+                    **{'set:action_at_depth': 80}, **_twin_floors(1),
                     **_arity_floors(emit=350000, connect=400000, disconnect=170000, invoked=450000, conn_emitting=70000, disc_emitting=65000, passed_over=70000, dropped=45000, ended=30000, recursive=40000)),
             T: dict(slot_invocations=45000000, invocations_matched=45000000, nested_actions=40000000, quiescent_walks=120000000, records_compared_by_walks=450000000,
                     exhaustive_programs=19456000, exhaustive_programs_all_arities=9216000, op_emit_recursive_same_signal=5000000, op_destroy_emitter_while_emitting=3000000, op_destroy_emitter_with_nested_emissions=500000,
                     op_destroy_listener_with_pending_slots=2500000, op_disconnect_behind_dead_record_of_same_slot=1800000, op_destroy_listener_behind_other_record_of_same_slot=1800000,
                     dcd_sequences_signal_emitting=800000, pending_slot_dropped_before_its_turn=5000000, passed_over_connected_during_emission=9000000, max_emission_depth=4,
-                    **{'set:action_at_depth': 90},
+                    **{'set:action_at_depth': 90}, **_twin_floors(14),
                     **_arity_floors(emit=2800000, connect=3200000, disconnect=1300000, invoked=3600000, conn_emitting=560000, disc_emitting=520000, passed_over=560000, dropped=360000, ended=240000, recursive=320000))},
 )
